@@ -190,7 +190,12 @@ def dwt_cases(ck, n, ops, modes=None, Lmax=None, Nmax=None):
             elif op == 'sfb2d':
                 yield rt.Case('Z', 'sfb2d', [m], [w0, w1, r0, r1, lo, hi[:, :, 0], hi[:, :, 1], hi[:, :, 2]], t2)
             elif op == 'sfb2d_nonsep':
-                yield rt.Case('Z', 'sfb2d_nonsep', [m, rng.randint(0, 1)], [w0, w1, r0, r1, np.concatenate([lo[:, :, None], hi], axis=2)], t2)
+                sh = rng.random()
+                if sh < 0.45 and len(r0) == len(w0):
+                    rr0, rr1 = (w0, w1) if sh < 0.3 else ((w0, r1) if sh < 0.38 else (r0, w1))
+                else:
+                    rr0, rr1 = r0, r1
+                yield rt.Case('Z', 'sfb2d_nonsep', [m, rng.randint(0, 5)], [w0, w1, rr0, rr1, np.concatenate([lo[:, :, None], hi], axis=2)], t2)
             else:
                 SH = synlen(m, kh, L); SW = synlen(m, kw, L2)
                 if SH >= 1 and SW >= 1:
@@ -211,7 +216,13 @@ def dwt_cases(ck, n, ops, modes=None, Lmax=None, Nmax=None):
             if op == 'afb2d':
                 yield rt.Case('Z', 'afb2d', [m], [w0, w1, r0, r1, x], tag)
             elif op == 'afb2d_nonsep':
-                yield rt.Case('Z', 'afb2d_nonsep', [m if m != 6 else 0, rng.randint(0, 1)], [w0, w1, r0, r1, x], tag)
+                # the row filters may be left to default to the column filters (None / two-argument forms): share one or both
+                sh = rng.random()
+                if sh < 0.45 and len(r0) == len(w0):
+                    rr0, rr1 = (w0, w1) if sh < 0.3 else ((w0, r1) if sh < 0.38 else (r0, w1))
+                else:
+                    rr0, rr1 = r0, r1
+                yield rt.Case('Z', 'afb2d_nonsep', [m if m != 6 else 0, rng.randint(0, 5)], [w0, w1, rr0, rr1, x], tag)
             elif rng.random() < 0.5:
                 yield rt.Case('Z', 'DWTForward', [m, J, 4], [w0, w1, r0, r1, x], dict(tag, J=J))
             else:
